@@ -791,7 +791,7 @@ def body(ctx):
                 exercise(o, 14, note="corpus:" + f.name)
 
     # ---------------- scalar classes
-    ncfg = ctx.scale(60, 700)
+    ncfg = ctx.scale(120, 700)
     nin = ctx.scale(44, 64)
     scalar_classes = ["Identity", "Logit", "Log", "BoxCox2", "BoxCox1lam", "BoxCox1nu", "BoxCox2sym", "YeoJohnson",
                       "LogSinh", "Reciprocal", "Sinh", "Manly"]
@@ -832,7 +832,7 @@ def body(ctx):
 
 
     # ---------------- dense sweeps of lam through the branch switches
-    nsw = ctx.scale(24, 700)
+    nsw = ctx.scale(60, 700)
     sweeps = []
     for k in range(nsw):
         f = 1 + rng.choice([-1, 1]) * 10 ** rng.uniform(-15, -0.3)
@@ -848,7 +848,7 @@ def body(ctx):
 
     # ---------------- Softmax (2-D)
     sm = T.Softmax()
-    nsm = ctx.scale(300, 8000)
+    nsm = ctx.scale(600, 8000)
     for it in range(nsm):
         ncol = rng.randint(1, 7)
         nrow = rng.randint(1, 4)
